@@ -77,6 +77,7 @@ CANARIES = [
     ('cursor-pop-root', 'C08', 'src/cursor.rs', '                    if self.stack.len() == 1 {\n                        return false;\n                    }\n', ''),
     ('filter-kv-yields-buckets-too', 'C08', 'src/cursor.rs', '            if let Data::KeyValue(kv) = data {\n                return Some(kv);\n            }\n        }\n        None', '            if let Data::KeyValue(kv) = data {\n                return Some(kv);\n            } else {\n                return None;\n            }\n        }\n        None'),
     ('filter-buckets-readonly-handle', 'C08', 'src/cursor.rs', '                            writable: self.writable,\n                            freelist: self.freelist.clone(),\n                            inner: r,', '                            writable: true,\n                            freelist: self.freelist.clone(),\n                            inner: r,'),
+    ('branch-separator-last-key', 'C05', 'src/node.rs', '            NodeData::Branches(b) => b[0].key.clone(),\n            NodeData::Leaves(l) => l[0].key_bytes(),', '            NodeData::Branches(b) => b[b.len() - 1].key.clone(),\n            NodeData::Leaves(l) => l[l.len() - 1].key_bytes(),'),
     ('bytes-cmp-reversed', 'C08', 'src/bytes.rs', '        a.cmp(b)', '        b.cmp(a)'),
     ('bytes-eq-by-length', 'C01', 'src/bytes.rs', '        a.eq(b)', '        a.len() == b.len()'),
     ('cursor-next-repeats-entry', 'C08', 'src/cursor.rs', '        } else if self.next_called && !self.advance() {', '        } else if false && !self.advance() {'),
